@@ -76,11 +76,14 @@ Qed.
 
 (* ---------- the agreement analysis of a step list ---------- *)
 
-(* what the Vars loop (setVarByName, setSpecial, ensureFields, joinFields) reads, caches aside *)
+(* what the Vars loop (setVarByName, setSpecial, ensureFields, joinFields) reads, caches aside.
+   ensureFields also looks at savedInputMode / savedCSVInputConfig (role LineShadow); they are left out: inside
+   the Vars loop the record is still the empty one resetCore installed (nothing there calls setLine), and the
+   empty record has no fields whatever those two say. *)
 Definition SV_READS : list field :=
   [ "scalarIndexes"; "globals"; "convertFormat"; "line"; "lineIsTrueStr"; "fields"; "fieldsIsTrueStr";
     "haveFields"; "numFields"; "inputMode"; "csvInputConfig"; "outputMode"; "csvOutputConfig";
-    "savedFieldSep"; "savedFieldSepRegex"; "recordSep"; "outputFieldSep" ].
+    "savedFieldSep"; "savedFieldSepRegex"; "recordSep"; "savedRecordSep"; "outputFieldSep" ].
 
 Fixpoint flow (l : list step) (A : list field) : option (list field) :=
   match l with
